@@ -49,11 +49,15 @@ def verify_one(job):
             if ob.status == 'sat' and ob.kind == 'proof':
                 d['model'] = solve.model_to_dict(ob.model)
                 rp = getattr(c, 'replay', None)
-                if rp is not None:
-                    try:
+                try:
+                    if rp is not None:
                         d['replay'] = rp(ex, ob, ob.model)
-                    except Exception as e:      # replay is best effort
-                        d['replay_error'] = repr(e)
+                    else:
+                        from pyvc import replay
+                        d['replay'] = replay.replay_function(
+                            ex, c, qual, ob.model, ex.args0)
+                except Exception as e:      # replay is best effort
+                    d['replay'] = {'status': 'no-replay', 'why': repr(e)}
             res['obligations'].append(d)
     except sym.Unsupported as e:
         res['unsupported'] = str(e)
